@@ -541,6 +541,53 @@ func H_C01_step5() {
 	c01Compare(m2, vReadAll(s), "post")
 }
 
+// H_C01_cols: many columns in one family. Qualifiers "0" < a < b < c < d; a..d each hold one cell,
+// "0" holds none. One MutateRow with 2..3 mutations, each a whole-column delete or a SetCell on
+// any of the five qualifiers: columns that empty, columns that appear, and untouched columns in between.
+func H_C01_cols() {
+	eng := vChoice("engine", 0, vBound("engines", 0, 1))
+	s := vNewServer(eng, func() bigtable.Timestamp { return 0 })
+	vCreateTable(s, "f", "g")
+	quals := [][]byte{[]byte("0"), []byte("a"), []byte("b"), []byte("c"), []byte("d")}
+	m := newMState([][]byte{[]byte("r")}, quals)
+	row := &btpb.Row{Key: []byte("r")}
+	fam := &btpb.Family{Name: "f"}
+	for q := 1; q < len(quals); q++ {
+		val := vNondetBytes("pre.val", 1)
+		fam.Columns = append(fam.Columns, &btpb.Column{Qualifier: quals[q], Cells: []*btpb.Cell{{TimestampMicros: 1000, Value: val}}})
+		m.cols[0][0][q] = append(m.cols[0][0][q], mCell{ts: 1000, val: val, alive: true})
+	}
+	row.Families = []*btpb.Family{fam}
+	s.tables[vTable].rows.ReplaceOrInsert(row)
+	n := vChoice("req.nmut", 2, 3)
+	post := m.clone()
+	var muts []*btpb.Mutation
+	for i := 0; i < n; i++ {
+		qi := vChoice("mut.qual", 0, len(quals)-1)
+		if vChoice("mut.kind", 0, 1) == 0 {
+			muts = append(muts, &btpb.Mutation{Mutation: &btpb.Mutation_DeleteFromColumn_{DeleteFromColumn: &btpb.Mutation_DeleteFromColumn{
+				FamilyName: "f", ColumnQualifier: quals[qi]}}})
+			cs := post.cols[0][0][qi]
+			for j := range cs {
+				cs[j].alive = false
+			}
+		} else {
+			val := vNondetBytes("set.val", 1)
+			muts = append(muts, &btpb.Mutation{Mutation: &btpb.Mutation_SetCell_{SetCell: &btpb.Mutation_SetCell{
+				FamilyName: "f", ColumnQualifier: quals[qi], TimestampMicros: 2000, Value: val}}})
+			cs := post.cols[0][0][qi]
+			for j := range cs {
+				cs[j].alive = vAnd(cs[j].alive, cs[j].ts != 2000)
+			}
+			post.cols[0][0][qi] = append(cs, mCell{ts: 2000, val: val, alive: true})
+		}
+	}
+	_, err := s.MutateRow(vCtx(), &btpb.MutateRowRequest{TableName: vTable, RowKey: []byte("r"), Mutations: muts})
+	vAssert(err == nil, "cols:mutaterow-ok")
+	c01Compare(post, vReadAll(s), "cols")
+	vReach("c01-cols")
+}
+
 // H_C01_seq: empty table, two requests of any shape, a read after each (thorough tier).
 func H_C01_seq() {
 	s, nowMs, m := c01Setup("engine", true)
@@ -557,4 +604,5 @@ func init() {
 	vHarnesses["H_C01_step4"] = H_C01_step4
 	vHarnesses["H_C01_step5"] = H_C01_step5
 	vHarnesses["H_C01_seq"] = H_C01_seq
+	vHarnesses["H_C01_cols"] = H_C01_cols
 }
